@@ -5,6 +5,7 @@ import KtVerif.Model.Fasta
 import KtVerif.DriverSched
 import KtVerif.Model.MinOut
 import KtVerif.Spec.Cli
+import KtVerif.Model.Py
 /-!
 # Driver glue (trusted, thin): parsing of request lines, printing of answers.
 
@@ -269,6 +270,14 @@ def answerWords (c : Cache) : List String → Cache × String
     | none => (c, "err")
     | some row =>
       (c, joinWith "|" ["ok", joinWith "," (row.map fun t => s!"{f64Bits t.1}:{f64Bits t.2.1}:{f64Bits t.2.2}")])
+  | ["pyoligo", k, norm, hx] =>
+    let k := k.toNat!; let norm := norm == "1"
+    let (c, pm) := c.get k
+    (c, joinWith "|" ["ok", fmtBits (pyOligoVec pm k norm (unhex hx)), fmtBits (oligoVec pm k norm (unhex hx))])
+  | ["pycgr", sz, hx] =>
+    (c, match pyCgr sz.toNat! (unhex hx) with
+      | none => "valueerror"
+      | some pts => "ok|" ++ fmtPts pts)
   | ws =>
     match (answerIo ws).orElse (fun _ => answerCli ws) with
     | some a => (c, a)
